@@ -1,5 +1,5 @@
 (* Correspondence for C03: every case carries what the REAL code did; the model is re-run here. *)
-From FunV Require Import Base.Tac Model.WorkerConf Model.WorkerGroup.
+From FunV Require Import Base.Tac Model.WorkerConf Model.WorkerGroup Model.WorkerNet.
 Open Scope Z_scope.
 
 Record fault := mkfault { f_pos : Z; f_kind : errkind; f_id : errid; f_tagged : bool }.
@@ -21,10 +21,11 @@ Inductive case :=
        (obs_processed : Z)         (* number of distinct items the user function was invoked on *)
        (obs_once : bool)           (* no item was invoked twice *)
        (obs_prefix : bool)         (* the invoked items are exactly 0..processed-1 *)
-       (obs_crash : bool).         (* the call itself panicked *)
+       (obs_crash : bool)          (* the call itself panicked *)
+       (obs_outputs : list Z).     (* Map / Generate: the values the output iterator yielded, sorted *)
 
 Definition case_id (x : case) : Z :=
-  match x with CParse id _ _ => id | CTable id _ _ _ _ _ _ _ => id | CE2E id _ _ _ _ _ _ _ _ _ _ _ _ _ => id end.
+  match x with CParse id _ _ => id | CTable id _ _ _ _ _ _ _ => id | CE2E id _ _ _ _ _ _ _ _ _ _ _ _ _ _ => id end.
 
 Definition reserved : list errid := [id_panic; id_skip; id_eof; id_canceled; id_deadline; id_abort].
 
@@ -62,17 +63,44 @@ Definition input_of (n : Z) : list Z := map Z.of_nat (seq 0 (Z.to_nat n)).
 
 Definition implb (a b : bool) : bool := negb a || b.
 
-Definition check_e2e (c : conf) (workers n : Z) (fs : list fault)
-           (o_nil : bool) (o_found o_flags : list bool) (o_proc : Z) (o_once o_prefix o_crash : bool) : bool :=
+Fixpoint zlist_eqb (a b : list Z) : bool :=
+  match a, b with
+  | [], [] => true
+  | x :: a', y :: b' => Z.eqb x y && zlist_eqb a' b'
+  | _, _ => false
+  end.
+
+(* One worker: replay the case through the refined network of its construct (Model/WorkerNet.v:
+   Process / Map with the unbuffered output channel / Generate with its 2N+1 buffer) along the
+   canonical one-worker schedule; the run must exist, must terminate, and must agree with the
+   sequential reference seq_run (C03_single_worker_deterministic). *)
+Definition replay1 (construct : Z) (c : conf) (fs : list fault) (n : Z) : option (list (Z * err) * list Z * list Z) :=
+  let gen := construct =? 2 in
+  let has_out := negb (construct =? 0) in
+  let cap := if gen then 3%nat else 0%nat in
+  let f := fn_of fs in
+  match WorkerNet.exec_all c gen has_out cap f (WorkerNet.init gen 1 (input_of n)) (seq_sched c gen has_out cap f (input_of n)) with
+  | Some s =>
+      let '(r, p) := seq_run c f (input_of n) in
+      if WorkerNet.terminated s && negb (WorkerNet.crashed s) && zlist_eqb (WorkerNet.proc s) p
+         && zlist_eqb (map fst (WorkerNet.res s)) (map fst r)
+      then Some (WorkerNet.res s, WorkerNet.proc s, WorkerNet.delivered s) else None
+  | None => None
+  end.
+
+Definition check_e2e (construct : Z) (c : conf) (workers n : Z) (fs : list fault)
+           (o_nil : bool) (o_found o_flags : list bool) (o_proc : Z) (o_once o_prefix o_crash : bool) (o_outs : list Z) : bool :=
   if negb (Nat.eqb (length o_found) (length fs)) then false else
   if workers =? 1 then
     (* one worker: everything is determined *)
-    let '(r, p) := seq_run c (fn_of fs) (input_of n) in
+    match replay1 construct c fs n with None => false | Some (r, p, dl) =>
+    (if construct =? 0 then true else zlist_eqb o_outs dl) &&
     let was_rec ft := existsb (fun xe => Z.eqb (fst xe) (f_pos ft)) r in
     Bool.eqb o_nil (match r with [] => true | _ => false end)
     && bools_eqb o_found (map (fun ft => identifiable ft && was_rec ft) fs)
     && bools_eqb o_flags (map (fun t => existsb (fun xe => is (snd xe) t) r) reserved)
     && (o_proc =? Z.of_nat (length p)) && o_once && o_prefix && negb o_crash
+    end
   else
     (* several workers: only what every schedule agrees on.  Items start in input order, so the first
        fault that cannot continue (position p1) and everything before it is always processed. *)
@@ -87,6 +115,8 @@ Definition check_e2e (c : conf) (workers n : Z) (fs : list fault)
                                 && implb fl (existsb (fun ft => upper ft && is (fault_err ft) t) fs))
                (combine reserved o_flags)
     && (if allc then o_proc =? n else (p1 + 1 <=? o_proc) && (o_proc <=? n))
+    (* continue mode (net_continue_mode_complete): the outputs are exactly the items that succeeded *)
+    && (if allc && negb (construct =? 0) then zlist_eqb o_outs (filter (WorkerNet.succ (fn_of fs)) (input_of n)) else true)
     && o_once && negb o_crash.
 
 Definition check_case (x : case) : bool :=
@@ -96,8 +126,8 @@ Definition check_case (x : case) : bool :=
       let oe := err_of k eid tagged in
       let d := can_continue c oe in
       bools_eqb o_prof (profile [eid] oe) && Bool.eqb o_rec (record d) && Bool.eqb o_cont (continue d)
-  | CE2E _ _ _ c w n fs o_nil o_found o_flags o_proc o_once o_prefix o_crash =>
-      check_e2e c w n fs o_nil o_found o_flags o_proc o_once o_prefix o_crash
+  | CE2E _ k _ c w n fs o_nil o_found o_flags o_proc o_once o_prefix o_crash o_outs =>
+      check_e2e k c w n fs o_nil o_found o_flags o_proc o_once o_prefix o_crash o_outs
   end.
 
 Definition mismatches (cs : list case) : list Z :=
